@@ -51,6 +51,8 @@ func defaultRules() map[string]selRule {
 		"go.uber.org/atomic": {To: zz + "vuatomic", Name: "vuatomic", Names: []string{"*"}},
 		"sync/atomic":        {To: zz + "vatomic", Name: "vatomic", Names: []string{"*"}},
 		"time":               {To: zz + "vtime", Name: "vtime", Names: []string{"Now", "Since", "Until", "Sleep", "After", "AfterFunc", "NewTimer", "NewTicker", "Tick", "Timer", "Ticker"}},
+		// the retry loop's elapsed-time budget must follow the virtual clock too
+		"github.com/cenkalti/backoff/v4": {To: zz + "vtime", Name: "vtime", Names: []string{"SystemClock"}},
 	}
 }
 
